@@ -6,6 +6,8 @@ prop, suf, cons = sys.argv[1], sys.argv[2], sys.argv[3]
 sid = prop + suf
 s = open("/root/seed_prompt_%s.txt" % prop).read()
 s = s.replace("/tmp/wt-%s" % prop, "/tmp/wt-%s" % sid).replace("/tmp/seed-out/%s" % prop, "/tmp/seed-out/%s" % sid)
+s = s.replace("build an unmodified copy by `git -C /tmp/wt-%s stash` / rebuild / run / `git -C /tmp/wt-%s stash pop` / rebuild" % (sid, sid),
+              "build an unmodified copy by saving your change (`git -C /tmp/wt-%s diff > /tmp/seed-out/%s/my.diff`), `git -C /tmp/wt-%s checkout -- .` / rebuild / run / `git -C /tmp/wt-%s apply /tmp/seed-out/%s/my.diff` / rebuild (do NOT use `git stash`: the stash is shared by all worktrees of the repository and other agents work in sibling worktrees)" % (sid, sid, sid, sid, sid))
 s = re.sub(r"\n*ADDITIONAL CONSTRAINT:.*?\nDELIVERABLES", "\nDELIVERABLES", s, flags=re.S)
 s = s.replace("\nDELIVERABLES", "\n\nADDITIONAL CONSTRAINT: " + cons + "\nDELIVERABLES", 1)
 open("/root/seed_prompt_%s.txt" % sid, "w").write(s)
